@@ -5,7 +5,7 @@ import sys, json, math, signal, datetime, uuid
 import enum as _enum
 import excs
 
-BUDGET_S = 20
+BUDGET_S = 120     # wall clock per case; the two code-point sweeps need ~3 s on an idle machine, much more under load
 
 
 class CaseTimeout(BaseException):
@@ -31,7 +31,7 @@ def pyval(j, ctx):
     if t == 'bool':
         return bool(j[1])
     if t == 'int':
-        return int(j[1])
+        return int(j[1], 16) if 'x' in j[1] else int(j[1])
     if t == 'float':
         return float(j[1]) if j[1] in ('nan', 'inf', '-inf') else float.fromhex(j[1])
     if t == 'str':
@@ -74,7 +74,7 @@ def jsonval(v, ctx):
     if type(v) is bool:
         return ['bool', v]
     if type(v) is int:
-        return ['int', str(v)]
+        return ['int', str(v) if v.bit_length() < 13000 else hex(v)]
     if type(v) is float:
         return ['float', float_json(v)]
     if type(v) is str:
@@ -185,7 +185,7 @@ def build(w, ctx):
 class Tables:
     def __init__(self, ctx):
         self.ctx = ctx
-        self.t = {k: [] for k in ('str', 'lower', 'upper', 'int', 'float', 'uuid', 'iso', 'epoch')}
+        self.t = {k: [] for k in ('str', 'lower', 'upper', 'int', 'intb', 'float', 'uuid', 'iso', 'epoch')}
         self.seen = set()
 
     def add(self, kind, key_json, val_json):
@@ -215,6 +215,9 @@ class Tables:
 
     def q_int(self, s):
         self.add('int', self.sj(s), outcome(lambda: int(s), self.ctx, lambda r, c: str(r)))
+
+    def q_intb(self, b):
+        self.add('intb', list(b), outcome(lambda: int(b), self.ctx, lambda r, c: str(r)))
 
     def q_float(self, s):
         o = outcome(lambda: float(s), self.ctx, lambda r, c: float_json(r))
@@ -246,6 +249,8 @@ def measure(w, v, tb, ctx, depth=0):
             v1 = tb.q_case(v, 'upper')
         if w['int'] and isinstance(v1, str):
             tb.q_int(v1)
+        if w['int'] and isinstance(v1, bytes):
+            tb.q_intb(v1)
     elif k == 'MatchPattern':
         tb.q_str(v)
     elif k == 'Iso':
@@ -347,6 +352,24 @@ def run_case(c):
             space = [cp for cp in range(0x110000) if chr(cp).isspace()]
             rx = [cp for cp in range(0x110000) if re.fullmatch(r'\s', chr(cp))]
             return {'strip': strip, 'isspace_same': space == strip, 'regex_same': rx == strip}
+        if op == 'num_ws':
+            # the code points int() / float() skip before and after the number
+            def skipped(f):
+                out = []
+                for cp in range(0x110000):
+                    if 0xD800 <= cp <= 0xDFFF:
+                        continue
+                    ch = chr(cp)
+                    try:
+                        if f(ch + '7' + ch) == 7 and f(ch + '7') == 7 and f('7' + ch) == 7:
+                            out.append(cp)
+                    except ValueError:
+                        pass
+                return out
+            return {'int': skipped(int), 'float': skipped(float)}
+        if op == 'int_str':
+            s = ''.join(map(chr, c['s']))
+            return {'r': outcome(lambda: int(s), ctx, lambda r, _: str(r))}
         if op == 'regex':
             import re
             s = ''.join(map(chr, c['s']))
